@@ -9,7 +9,7 @@
    counter is monotone and every number is used by one statement only.  Uniqueness of the TEXTS
    follows where the printing is injective ([translate_labels_unique]). *)
 From Coq Require Import List NArith String Ascii Bool Lia Permutation.
-From SCC Require Import Base.Sexp Lang.AxSyn Model.ParMoves Model.Backend Proof.LinBasics Proof.LabelStrings.
+From SCC Require Import Base.Sexp Lang.AxSyn Model.ParMoves Model.Backend Sem.LabelGuard Proof.LinBasics Proof.LabelStrings.
 Import ListNotations.
 Local Open Scope string_scope.
 Local Open Scope list_scope.
@@ -33,15 +33,12 @@ Proof.
   - apply IH; [|exact N']. intros x y Hx Hy. apply I; right; assumption.
 Qed.
 
-Fixpoint nodup_strb (l : list string) : bool :=
-  match l with [] => true | x :: r => negb (existsb (String.eqb x) r) && nodup_strb r end.
 Lemma nodup_strb_NoDup l : nodup_strb l = true -> NoDup l.
 Proof.
   induction l as [|x r IH]; intros H; [constructor|]. cbn in H. apply andb_true_iff in H as [H1 H2].
   constructor; [|apply IH; exact H2]. intros I. apply negb_true_iff in H1.
   assert (existsb (String.eqb x) r = true) by (apply existsb_exists; exists x; split; [exact I|apply String.eqb_refl]). congruence.
 Qed.
-Definition mem_strb (x : string) (l : list string) : bool := existsb (String.eqb x) l.
 Lemma mem_strb_In x l : mem_strb x l = true -> In x l.
 Proof. unfold mem_strb. intros H. apply existsb_exists in H as (y & Hy & E). apply String.eqb_eq in E. subst. exact Hy. Qed.
 
@@ -58,24 +55,6 @@ Ltac rstep H :=
   end.
 Ltac rinv H := repeat rstep H.
 
-(* a generic recursive check over statements: every Call label passes fcall, every Switch / Create
-   passes fsw (type, xtors of its clauses) *)
-Fixpoint stmt_check (fcall : ident -> bool) (fsw : ty -> list ident -> bool) (s : stmt) : bool :=
-  let go := fix go (l : list clause) : bool :=
-    match l with [] => true | (_, _, b) :: r => stmt_check fcall fsw b && go r end in
-  match s with
-  | Substitute _ n => stmt_check fcall fsw n
-  | Call l _ => fcall l
-  | Let _ _ _ _ n => stmt_check fcall fsw n
-  | Switch _ t cls => fsw t (map cl_xtor cls) && go cls
-  | Create _ t _ cls n => fsw t (map cl_xtor cls) && go cls && stmt_check fcall fsw n
-  | Invoke _ _ _ _ => true
-  | Literal _ _ n => stmt_check fcall fsw n
-  | Op _ _ _ _ n => stmt_check fcall fsw n
-  | PrintI64 _ _ n => stmt_check fcall fsw n
-  | IfC _ _ _ t e => stmt_check fcall fsw t && stmt_check fcall fsw e
-  | Exit _ => true
-  end.
 Lemma stmt_check_switch fcall fsw v t cls :
   stmt_check fcall fsw (Switch v t cls) = fsw t (map cl_xtor cls) && forallb (fun c => stmt_check fcall fsw (cl_body c)) cls.
 Proof.
@@ -88,7 +67,6 @@ Proof.
   cbn [stmt_check]. f_equal. f_equal. induction cls as [|[[x cx] b] r IH]; [reflexivity|]. cbn [forallb cl_body snd]. rewrite IH. reflexivity.
 Qed.
 
-Definition tyS (t : ty) : string := label_of_type_name (show_ty t).
 Lemma type_label_pr t k : type_label t k = pr (GTL (tyS t) k).
 Proof. reflexivity. Qed.
 Lemma clause_label_pr t k x : type_label t k +++ "_" +++ show_ident x = pr (GCL (tyS t) k (show_ident x)).
@@ -195,10 +173,8 @@ Hypothesis LO : labels_ok.
 
 Variables okS okX : string -> bool.
 Notation in_univ := (in_univ okS okX).
-Definition sw_ok (t : ty) (xs : list ident) : bool :=
-  okS (tyS t) && negb (lower_first (tyS t)) && forallb (fun x => okX (show_ident x)) xs
-  && nodup_strb (map show_ident xs).
-Definition names_ok (s : stmt) : bool := stmt_check (fun _ => true) sw_ok s.
+Notation sw_ok := (sw_ok okS okX).
+Notation names_ok := (names_ok okS okX).
 
 (* ---------- abstract labels of a piece of code ---------- *)
 Definition gen_in (lo hi : N) (g : gl) : Prop := is_gen g = true /\ in_univ g /\ (lo < key g <= hi)%N.
@@ -480,7 +456,6 @@ Proof.
 Qed.
 
 (* ---------- translate: one definition label per definition ---------- *)
-Definition dnames (ds : list def) : list string := map (fun d => show_ident (dname d)) ds.
 Definition translate_inv (names : list string) (lc : N) (c : list Code) (lc' : N) : Prop :=
   (lc <= lc')%N /\ exists gs, defs c = map pr gs /\ NoDup gs /\
     (forall g, In g gs -> (exists n, In n names /\ g = GDef n) \/ gen_in lc lc' g) /\
@@ -514,8 +489,7 @@ Qed.
 (* ---------- uniqueness of the texts, where the printing is injective ---------- *)
 Hypothesis Hinj : forall g1 g2, in_univ g1 -> in_univ g2 -> pr g1 = pr g2 -> g1 = g2.
 
-Definition prog_names_ok (ds : list def) : bool :=
-  forallb (fun d => lower_first (show_ident (dname d)) && names_ok (dbody d)) ds && nodup_strb (dnames ds).
+Notation prog_names_ok := (prog_names_ok okS okX).
 
 Theorem translate_labels_unique types ds lc c lc' :
   prog_names_ok ds = true -> translate B types ds lc = Ok (c, lc') ->
@@ -568,7 +542,7 @@ Variable fcall : ident -> bool.
 Definition called (l : string) : Prop := exists f, fcall f = true /\ l = show_ident f +++ "_".
 Definition ref_in (D : list string) (c : list Code) : Prop :=
   forall l, In l (refs c) -> In l D \/ l = "cleanup" \/ called l.
-Definition calls_ok (s : stmt) : bool := stmt_check fcall (fun _ _ => true) s.
+Notation calls_ok := (calls_ok fcall).
 
 Lemma ref_in_app D c1 c2 : ref_in D c1 -> ref_in D c2 -> ref_in D (c1 ++ c2).
 Proof. intros H1 H2 l Hl. unfold LabelGen.refs in Hl. rewrite flat_map_app in Hl. apply in_app_or in Hl as [Hl|Hl]; auto. Qed.
@@ -741,8 +715,6 @@ Qed.
 End LabelRefs.
 
 (* every referenced label is defined, or is the routine's `cleanup`: for programs whose calls go to definitions *)
-Definition prog_calls_ok (ds : list def) : bool :=
-  forallb (fun d => calls_ok (fun l => mem_strb (show_ident l) (dnames ds)) (dbody d)) ds.
 Theorem translate_refs_defined {Code Temp} (B : backend Code Temp) cdefs crefs (LO : labels_ok B cdefs crefs) types ds lc c lc' :
   prog_calls_ok ds = true -> translate B types ds lc = Ok (c, lc') ->
   forall l, In l (refs crefs c) -> In l (defs cdefs c) \/ l = "cleanup".
